@@ -327,7 +327,8 @@ def main(tier, seed):
         lmeta[it["nid"]] = it
     lv, lstats, lerr = C.run_tlc(ltraces)
     for tid, e in lerr.items():
-        run.error(f"{tid}: {e}")
+        if not e.startswith("tlc timeout"):
+            run.error(f"{tid}: {e}")
     loop_fail = 0
     for tid, v in lv.items():
         if v["fails"]:
